@@ -182,6 +182,42 @@ theorem optimize_never_lowers_rat (ops : SpecOps σ ℚ) (ev lz ini) (sett : Set
   have := C03.optimize_never_lowers ops ev lz ini sett F n hp hq hfit (totalFaithful_of_scoreFaithful ops ev lz ini F h) s st hn
   exact not_lt.1 (of_decide_eq_false this)
 
+/-! ### closed statements for the built-in model (objects of `C08.bOps`) -/
+
+attribute [local instance] C08.instBEqBSpecRat in
+/-- an objective whose `localized` returns the specification itself (global GC bounds or target,
+    partial EnforceChanges, EnforceChoice, budgeted AvoidChanges, …) is score-faithful: the local
+    score *is* the global score -/
+theorem same_scoreFaithful (b : BSpec ℚ) (h : ∀ w, b.localized w none = .same) :
+    ScoreFaithful C08.bOps C08.evB C08.lzB C08.iniB b := by
+  intro a c s t _
+  have : C08.lzB b ⟨a, c, 0⟩ s = some b := by simp only [C08.lzB, h]
+  rw [this]
+  exact ⟨rfl, rfl⟩
+
+attribute [local instance] C08.instBEqBSpecRat in
+/-- a region objective whose localization to the window is `None` does not see the edit at all -/
+theorem none_scoreFaithful_at (b : BSpec ℚ) (l : Loc) (a c : ℕ) (s t : Seq)
+    (hb : C08.regionOf b = some l) (hl : l.Nonempty) (hl0 : 0 ≤ l.start) (hw : a < c)
+    (hst : l.strand = 1 ∨ l.strand = -1 ∨ l.strand = 0)
+    (hsize : ∀ p l', b = .avoidPattern p l' → 1 ≤ p.size)
+    (hwin : ∀ mi ma k l', b = .gc mi ma (some k) l' → 1 ≤ k)
+    (hnone : b.localized ⟨a, c, 0⟩ none = .none) (hag : C02.AgreeOut a c s t) :
+    (C08.evB b t).score = (C08.evB b s).score := by
+  have := C08.localized_none_unchanged b l ⟨a, c, 0⟩ none s t hb hl hl0 (by simp only [Loc.Nonempty]; omega)
+    (by simp) hst hsize hwin hnone (C08.agreeOutside_of_agreeOut a c s t hag)
+  simp only [C08.evB, this]
+
+attribute [local instance] C08.instBEqBSpecRat in
+/-- **C03, closed for the built-in model**: with objectives that localize to themselves (any
+    constraints), on a well-formed mutation space, `optimize()` never ends on a lower exact total -/
+theorem builtin_optimize_never_lowers (sett : Settings) (F : Frame (BSpec ℚ)) (n : ℕ)
+    (hfit : ∀ a b : ℤ, C15.ChoicesFit n (F.space.localized a b).multichoices)
+    (hobj : ∀ o ∈ F.objectives, ∀ w, o.localized w none = .same) (s : Seq) (st : St (BSpec ℚ) ℚ) (hn : s.length = n) :
+    total C08.bOps C08.evB F s ≤ total C08.bOps C08.evB F (Solver.optimize C08.bOps sett F s st).2.1 :=
+  optimize_never_lowers_rat C08.bOps C08.evB C08.lzB C08.iniB sett F n C08.bOps_pureEval C08.bOps_pureObj hfit
+    (fun o ho => same_scoreFaithful o (hobj o ho)) s st hn
+
 end totals
 
 end Dna.C09
